@@ -100,14 +100,17 @@ package cisco
 // delACL
 //vc:func (*State).diffIOSACLs$2
 //vc:  assert[C02] at "s.delCmds([]*cmd{a.cmd})" @deletedByOwnNumber a.cmd.orig == strconv.Itoa((a.pos + 1)*10000)
-// moveACL: a move is suppressed only inside a uniform run and only next to
-// the block the line already belongs to
+// moveACL: a move is suppressed only next to the block the line already belongs
+// to: directly behind it when every line inserted in front of the moved line
+// has its action (behindOK), directly in front of it when every line inserted
+// behind the moved line has its action (frontOK). Otherwise a line of the
+// other action would end up between the line and its target position.
 //vc:ghost var moveEmitted bool
 //vc:func (*State).diffIOSACLs$3
 //vc:  requires[C02] @insertIndexBelowStep 0 <= i && i < 9999 && 0 <= before
 //vc:  init moveEmitted = false
 //vc:  assign after "addACL(b, before, i)" moveEmitted = true
-//vc:  ensures[C02,C14] @suppressedOnlyNextToOwnBlock !moveEmitted ==> moveOK && ((before > 0 && idx2Block[before - 1] == idx2Block[a.pos]) || (before < len(idx2Block) && idx2Block[before] == idx2Block[a.pos]))
+//vc:  ensures[C02,C14] @suppressedOnlyNextToOwnBlock !moveEmitted ==> ((behindOK && before > 0 && idx2Block[before - 1] == idx2Block[a.pos]) || (frontOK && before < len(idx2Block) && idx2Block[before] == idx2Block[a.pos]))
 
 // runUniform: specification state of the current insert run - every line read
 // so far has the action of the first one (actions are read before the line is
@@ -117,10 +120,25 @@ package cisco
 //vc:  hypothesis[C02] forall k int :: { diff[k] } 0 <= k && k < len(diff) ==> 0 <= diff[k].LowA && diff[k].LowA <= diff[k].HighA && diff[k].HighA <= len(al) && 0 <= diff[k].LowB && diff[k].LowB <= diff[k].HighB && diff[k].HighB <= len(bl)
 //vc:  hypothesis[C02] len(al) > 0 && al[0] != nil && al[0].subCmdOf != nil
 //vc:  assert[C02] at "del = append(del, &cmdPos)" @deleteEntryRecordsOwnLine cmdPos.cmd == a && cmdPos.pos == r.LowA + i && 0 <= cmdPos.pos && cmdPos.pos < len(al) && al[cmdPos.pos] == a
-//vc:  assign at "action0 := getIOSAction(bl[r.LowB])" runUniform = true
+//vc:  hypothesis[C02] @rangesNeverEmpty forall k int :: { diff[k] } 0 <= k && k < len(diff) ==> diff[k].LowA < diff[k].HighA || diff[k].LowB < diff[k].HighB
+//vc:  assign at "action0 := getIOSAction(run[0])" runUniform = true
 //vc:  assign at "action0 == getIOSAction(b)" runUniform = runUniform && strings.Cut(b.parsed, " ") == action0
-//vc:  invariant[C02,C14] 6 "for i, b := range bl[r.LowB:r.HighB]" @moveOKMeansUniformRun -1 <= rangeindex && moveOK == runUniform
-//vc:  assert[C02,C14] at "moveACL(cmdPos, b, r.LowA, i, moveOK)" @moveSuppressibleOnlyInUniformRun moveOK ==> runUniform
+//vc:  invariant[C02,C14] 6 "for tail > 0 && getIOSAction(run[tail-1]) == getIOSAction(run[tail])" @tailHasOneAction 0 <= tail && tail < len(run) && (forall j int :: { run[j] } tail <= j && j < len(run) ==> strings.Cut(run[j].parsed, " ") == strings.Cut(run[len(run)-1].parsed, " "))
+//vc:  invariant[C02,C14] 7 "for i, b := range run" @moveOKMeansUniformRun -1 <= rangeindex && moveOK == runUniform && 0 <= tail && tail < len(run) && (forall j int :: { run[j] } tail <= j && j < len(run) ==> loopold(strings.Cut(run[j].parsed, " ")) == loopold(strings.Cut(run[len(run)-1].parsed, " ")))
+//vc:  assert[C02,C14] at "moveACL(cmdPos, b," @suppressBehindOnlyAfterUniformPrefix arg4 ==> runUniform
+//vc:  assert[C02,C14] at "moveACL(cmdPos, b," @suppressInFrontOnlyBeforeUniformSuffix arg5 ==> (forall j int :: { run[j] } i <= j && j < len(run) ==> loopold(strings.Cut(run[j].parsed, " ")) == loopold(strings.Cut(run[i].parsed, " ")))
+
+// markIOSPermitDenyBlocks: block numbers start at 1, never decrease, grow by at
+// most one per line, a remark line never opens a block, and the second result
+// is the number of the last block. moveACL and the block split in diffIOSACLs
+// compare these numbers; a line without a block number would make two lines
+// of different blocks look like neighbours of one block.
+//vc:func markIOSPermitDenyBlocks
+//vc:  invariant[C02,C14] 1 "for i, c := range l" @blocksNumberedSoFar -1 <= rangeindex && rangeindex < len(l) && 1 <= blockID && len(result) == len(l) && (forall k int :: { result[k] } 0 <= k && k <= rangeindex ==> 1 <= result[k] && result[k] <= blockID) && (forall k int :: { result[k] } 0 < k && k <= rangeindex ==> result[k-1] <= result[k] && result[k] <= result[k-1] + 1 && (strings.Cut(l[k].parsed, " ") == "remark" ==> result[k] == result[k-1])) && (rangeindex >= 0 ==> result[rangeindex] == blockID)
+//vc:  ensures[C02,C14] @everyLineHasBlock len(result0) == len(l) && (forall k int :: { result0[k] } 0 <= k && k < len(l) ==> 1 <= result0[k] && result0[k] <= result1)
+//vc:  ensures[C02,C14] @blocksGrowStepwise forall k int :: { result0[k] } 0 < k && k < len(l) ==> result0[k-1] <= result0[k] && result0[k] <= result0[k-1] + 1
+//vc:  ensures[C02,C14] @remarkStaysInBlock forall k int :: { result0[k] } 0 < k && k < len(l) && strings.Cut(l[k].parsed, " ") == "remark" ==> result0[k] == result0[k-1]
+//vc:  ensures[C02,C14] @lastBlockIsCount len(l) > 0 ==> result0[len(l)-1] == result1
 
 // ---- C01: line position kernel of the ASA ACL diff ----
 // pos[c] is the 0-based position a line has on the device at this moment of
@@ -174,3 +192,13 @@ package cisco
 //vc:  invariant[C18] 1 "for len(data) > 0" @unknownCommandNotSkippedInRaw !(isRaw && unknownTop)
 //vc:  assert[C18] at "m[c.name] = append(m[c.name], c)" @toplevelCarriesAppendState c.append == appendSeenC
 //vc:  ensures[C18] @rawFileWithUnknownCommandRejected path.Ext(fName) == ".raw" && unknownTop ==> result1 != nil
+
+// findGroupOnDevice: a device group is bound to at most one Netspoc group (a
+// group that is already needed was, or will be, changed to the elements of
+// another group), and only to a group of the same type with the same elements
+// in the same order.
+//vc:func (*State).findGroupOnDevice
+//vc:  assert[C01] at "ga.needed = true" @deviceGroupBoundOnce !ga.needed
+//vc:  assert[C01] at "gb.ready = true" @boundGroupHasSameElements ga.parsed == gb.parsed && len(ga.sub) == len(gb.sub) && (forall k int :: { gb.sub[k] } 0 <= k && k < len(gb.sub) ==> gb.sub[k].orig == ga.sub[k].orig)
+//vc:  invariant[C01] 1 "for _, aName := range slices.Sorted(maps.Keys(m))" true
+//vc:  invariant[C01] 2 "for i, n := range gb.sub" @elementsEqualSoFar -1 <= rangeindex && (forall k int :: { gb.sub[k] } 0 <= k && k <= rangeindex ==> gb.sub[k].orig == ga.sub[k].orig)
